@@ -34,6 +34,7 @@ def is_bin(d):
     return isinstance(d, (bytes, bytearray))
 
 
+@opaque(returns='bool')
 def api_payload(t, d):
     """The payloads the API accepts: none, text, bytes-like (MESSAGE only), JSON dict / list."""
     if t < 0 or t > 6:
@@ -45,6 +46,7 @@ def api_payload(t, d):
     return isinstance(d, (dict, list))
 
 
+@opaque(returns='any')
 def wire(t, d, b64):
     """Engine.IO v4 representation of packet (t, d) on a text-only (b64) or binary channel."""
     if is_bin(d):
@@ -58,11 +60,13 @@ def wire(t, d, b64):
     return str(t) + json.dumps(d, separators=(',', ':'))
 
 
+@opaque(returns='bool')
 def cache_ok(cache, t, d):
     """Object invariant of the encode cache: whatever is cached is right for both channels."""
     return (not cache) or (cache == wire(t, d, True) and cache == wire(t, d, False))
 
 
+@opaque(returns='any')
 def lit(s):
     """Text that is a JSON object, array, string, float or null literal is that value;
     integer-looking (incl. true/false, which Python counts as int) and all other text stays."""
@@ -75,6 +79,7 @@ def lit(s):
     return v
 
 
+@opaque(returns='bool')
 def int_ok(s):
     try:
         int(s)
@@ -83,6 +88,7 @@ def int_ok(s):
     return True
 
 
+@opaque(returns='bool')
 def dec_fails(e):
     """Decoding e raises ValueError."""
     if is_bin(e):
@@ -94,6 +100,7 @@ def dec_fails(e):
     return not int_ok(e[0])
 
 
+@opaque(returns='bool')
 def dec_recursion(e):
     """Decoding e exhausts the interpreter's recursion limit inside the JSON parser."""
     if is_bin(e) or len(e) == 0 or e[0] == 'b' or not int_ok(e[0]):
@@ -107,6 +114,7 @@ def dec_recursion(e):
     return False
 
 
+@opaque(returns='bool')
 def b64_ok(s):
     try:
         base64.b64decode(s)
@@ -115,16 +123,19 @@ def b64_ok(s):
     return True
 
 
+@opaque(returns='bool')
 def dec_binary(e):
     return is_bin(e) or e[0] == 'b'
 
 
+@opaque(returns='int')
 def dec_type(e):
     if is_bin(e) or e[0] == 'b':
         return 4
     return int(e[0])
 
 
+@opaque(returns='any')
 def dec_data(e):
     if is_bin(e):
         return bytes(e)
@@ -133,6 +144,7 @@ def dec_data(e):
     return lit(e[1:])
 
 
+@opaque(returns='any')
 def norm(d):
     """What a payload comes back as after a round trip."""
     if d is None:
@@ -342,3 +354,51 @@ def one_task_spawned(spawned, old_spawned):
 
 def task_name(t):
     return t[0]
+
+
+# --- C06: the probe handshake over the ghost frame log -------------------------------------------
+
+def mk_frame(out, data):
+    return (out, data)
+
+
+def frame_out(f):
+    return f[0]
+
+
+def frame_data(f):
+    return f[1]
+
+
+def decodes_to(e, t):
+    """Inbound frame payload e (text or bytes) decodes to a packet of type t."""
+    if e is None:
+        return False
+    return not dec_fails(e) and not dec_recursion(e) and dec_type(e) == t
+
+
+def handshake_frames(log, n0):
+    """The frames after position n0 start with: in PING 'probe', out PONG 'probe', in UPGRADE."""
+    if len(log) < n0 + 3:
+        return False
+    f0 = log[n0]
+    f1 = log[n0 + 1]
+    f2 = log[n0 + 2]
+    return (not frame_out(f0)) and decodes_to(frame_data(f0), 2) and \
+        dec_data(frame_data(f0)) == 'probe' and \
+        frame_out(f1) and frame_data(f1) == '3probe' and \
+        (not frame_out(f2)) and decodes_to(frame_data(f2), 5)
+
+
+def is_upgrade_request(environ, protocols):
+    """The request asks for a transport upgrade (Connection: upgrade + Upgrade: <protocol>)."""
+    connections = [s.strip() for s in environ.get('HTTP_CONNECTION', '').lower().split(',')]
+    transport = environ.get('HTTP_UPGRADE', '').lower()
+    return 'upgrade' in connections and transport in protocols
+
+
+# --- responses (C11, C12, C15, C19) --------------------------------------------------------------
+
+def json_text(v):
+    """json.dumps(v) with the default separators (library function, assumed)."""
+    return json.dumps(v)
